@@ -274,6 +274,32 @@ def idx_index_mut(m, st, ctx, args, span):
     return index_slice(m, st, args[0], args[1], True, span)
 
 
+@model("std::convert::AsRef::as_ref", "<std::vec::Vec<T, A> as std::convert::AsRef<[T]>>::as_ref", "<[T; N] as std::convert::AsRef<[T]>>::as_ref",
+       "<[T] as std::convert::AsRef<[T]>>::as_ref", "std::convert::AsMut::as_mut", "std::borrow::Borrow::borrow")
+def m_as_ref_slice(m, st, ctx, args, span):
+    # AsRef<[T]> of a vector, an array or a slice: the same elements viewed as a slice (dispatch on the value, the callee may be generic)
+    r = args[0]
+    for _ in range(3):
+        if isinstance(r, (SliceRef, SymSlice)):
+            return r
+        if isinstance(r, Ref):
+            t = deref(r)
+            if isinstance(t, VecV):
+                return vec_as_slice(m, r)
+            if isinstance(t, Arr):
+                return SliceRef(r, 0, len(t.elems), r.mut)
+            r = t
+            continue
+        break
+    raise Unsupported("AsRef::as_ref of %r" % (args[0],))
+
+
+@model("std::vec::Vec::<T, A>::into_boxed_slice", "std::slice::<impl [T]>::into_vec")
+def m_vec_boxed_roundtrip(m, st, ctx, args, span):
+    # Vec<T> <-> Box<[T]>: the same elements; a boxed slice is tracked like the vector it came from
+    return args[0]
+
+
 @model("std::slice::<impl [T]>::to_vec")
 def slice_to_vec(m, st, ctx, args, span):
     s = args[0]
@@ -436,6 +462,8 @@ def m_zip(m, st, ctx, args, span):
     elif isinstance(b, Ref) and isinstance(deref(b), Arr):
         b = IterV("slice_mut" if b.mut else "slice", SliceRef(b, 0, len(deref(b).elems), b.mut), 0)
     if not (isinstance(a, IterV) and isinstance(b, IterV)):
+        # (a lazy Zip adapter over map/flat_map sources exists as a shim - __shim::zip_next - but stepping it inside a summarised helper
+        # forks on every element; until that is bounded the combination fails closed: refactors/bold KNOWN_LIMITS B7-r6)
         raise Unsupported("zip of %r and %r" % (a, b))
     return IterV("zip", a, b)
 
@@ -514,7 +542,7 @@ def m_into_iter(m, st, ctx, args, span):
     v = args[0]
     if isinstance(v, IterV):
         return v
-    if isinstance(v, Adt) and v.path == "std::ops::Range":
+    if isinstance(v, Adt) and (v.path == "std::ops::Range" or v.path.startswith("__iter::")):
         return v
     if isinstance(v, SliceRef):
         return IterV("slice_mut" if v.mut else "slice", v, 0)
@@ -671,6 +699,17 @@ def m_wrapping_shift(m, st, ctx, args, span):
     if not b.is_const():
         b = int_binop("BitAnd", b, int_const(a.w - 1, b.w, False))
     return int_binop("Shr" if ctx.name.endswith("shr") else "Shl", a, b)
+
+
+@model(*["core::num::<impl %s>::next_multiple_of" % t for t in ("u8", "u16", "u32", "u64", "usize")])
+def m_next_multiple_of(m, st, ctx, args, span):
+    # x.next_multiple_of(p) = x + (p - x % p) % p  (panics on p == 0 / overflow, which the callers' address arithmetic does not reach)
+    a, b = args
+    if a.is_const() and b.is_const() and b.cval():
+        return int_const(-(-a.cval() // b.cval()) * b.cval(), a.w, a.signed)
+    w = a.w
+    slack = binop("rem", binop("sub", b.e, binop("rem", a.e, b.e, w), w), b.e, w)
+    return Int(w, a.signed, binop("add", a.e, slack, w))
 
 
 @model("core::num::<impl u64>::abs_diff", "core::num::<impl usize>::abs_diff", "core::num::<impl u32>::abs_diff",
@@ -1126,6 +1165,16 @@ def m_other_raw_write(m, st, ctx, args, span):
     return ret
 
 
+@model("std::slice::from_raw_parts")
+def m_from_raw_parts(m, st, ctx, args, span):
+    # a shared slice over raw memory: reading it (to_vec, copy_from_slice as a source) reads those bytes - recorded like the byte reader's copy
+    ptr, ln = args
+    if isinstance(ptr, Int) and isinstance(ln, Int) and elem_size_of(m, ctx) == 1:
+        m.event(st, "raw_read", ctx.name, [ptr, None, ln], None, span, extra={"src": ptr, "count": ln})
+        return SymSlice(E("mem", (ptr.e, ln.e)), ptr, ln)
+    raise Unsupported("slice::from_raw_parts(%r, %r)" % (ptr, ln))
+
+
 @model("std::slice::from_raw_parts_mut")
 def m_from_raw_parts_mut(m, st, ctx, args, span):
     ptr, ln = args
@@ -1178,6 +1227,25 @@ def m_partial_eq(m, st, ctx, args, span):
             return Int(1, False, E("str_ne" if ne else "str_eq", (x.e, y.e), 1))
         if isinstance(x, Int) and isinstance(y, Int):
             return int_cmp("Ne" if ne else "Eq", x, y)
+    if isinstance(a, Adt) and isinstance(b, Adt) and a.path == b.path and a.variant == b.variant and len(a.fields) == len(b.fields) >= 1:
+        # a crate type with #[derive(PartialEq)] (the impl's span comes from the derive expansion): field-wise equality
+        f = m.facts.fns.get("<%s as std::cmp::PartialEq>::eq" % a.path)
+        if f is not None and (f.get("span") or {}).get("exp") and len(m.facts.adts.get(a.path, {}).get("variants", [])) == 1:
+            acc = None
+            for x, y in zip(a.fields, b.fields):
+                x, y = deref(deref(x)), deref(deref(y))
+                if isinstance(x, Opaque) and isinstance(y, Opaque):
+                    e = Int(1, False, E("str_eq", (x.e, y.e), 1))
+                elif isinstance(x, Int) and isinstance(y, Int):
+                    e = int_cmp("Eq", x, y)
+                else:
+                    raise Unsupported("derived PartialEq on field %r, %r" % (x, y))
+                acc = e if acc is None else int_binop("BitAnd", acc, e)
+            if ne:
+                if acc.e.op == "str_eq":
+                    return Int(1, False, E("str_ne", acc.e.args, 1))
+                return int_binop("BitXor", acc, int_const(1, 1))
+            return acc
     raise Unsupported("PartialEq on %r, %r" % (a, b))
 
 
@@ -1317,6 +1385,28 @@ def _mk_option_map_shim():
             "locals": [{"ty": _ANY} for _ in range(8)], "debug": [], "blocks": blocks}
 
 
+def _mk_option_pred_shim(name, on_none):
+    # fn is_some_and(opt, f) -> bool { match opt { None => false, Some(x) => f(x) } }      (is_none_or: None => true)
+    # locals: 0 ret, 1 opt, 2 f, 3 discr, 4 x, 5 &mut f, 6 args
+    B = {"s": "bool", "k": "bool"}
+    cst = {"k": "const", "ty": B, "val": {"k": "int", "bits": "1" if on_none else "0", "size": 1}, "s": "true" if on_none else "false"}
+    blocks = [
+        {"cleanup": False, "stmts": [{"k": "assign", "place": _pl(3), "rv": {"k": "discr", "place": _pl(1)}, "span": None}],
+         "term": {"k": "switch", "discr": _move(3), "discr_ty": _ANY, "arms": [["0", 3]], "otherwise": 1}},
+        {"cleanup": False, "stmts": [
+            {"k": "assign", "place": _pl(4), "rv": {"k": "use", "op": _move(1, {"k": "downcast", "variant": 1, "name": "Some"}, {"k": "field", "i": 0, "name": "0", "ty": _ANY})}, "span": None},
+            {"k": "assign", "place": _pl(6), "rv": {"k": "aggregate", "kind": {"k": "tuple"}, "ops": [_move(4)]}, "span": None},
+            {"k": "assign", "place": _pl(5), "rv": {"k": "ref", "mut": True, "place": _pl(2)}, "span": None}],
+         "term": {"k": "call", "callee": _callee("std::ops::FnMut::call_mut"), "args": [_move(5), _move(6)], "dest": _pl(0), "target": 2, "unwind": "continue", "span": None}},
+        {"cleanup": False, "stmts": [], "term": {"k": "return"}},
+        {"cleanup": False, "stmts": [{"k": "assign", "place": _pl(0), "rv": {"k": "use", "op": cst}, "span": None}], "term": {"k": "return"}},
+    ]
+    return {"path": name, "promoted": None, "def_kind": "Fn", "span": {"file": "<shim>", "line": 0}, "arg_count": 2,
+            "locals": [{"ty": _ANY} for _ in range(7)], "debug": [], "blocks": blocks}
+
+
+SHIMS["std::option::Option::<T>::is_some_and"] = _mk_option_pred_shim("__shim::is_some_and", False)
+SHIMS["std::option::Option::<T>::is_none_or"] = _mk_option_pred_shim("__shim::is_none_or", True)
 SHIMS["__shim::option_map"] = _mk_option_map_shim()
 SHIMS["std::option::Option::<T>::map"] = SHIMS["__shim::option_map"]
 SHIMS["__shim::from_fn"] = _mk_from_fn_shim()
@@ -1351,10 +1441,13 @@ def _next_dispatch(m, st, ctx, args, span):
         return Enter("__shim::map_next", [args[0]])
     if isinstance(it, Adt) and it.path == "__iter::FlatMap":
         return Enter("__shim::flatmap_next", [args[0]])
+    if isinstance(it, Adt) and it.path == "__iter::Zip":
+        return Enter("__shim::zip_next", [args[0]])
     return iter_next(m, args[0])
 
 
-for _n in ("__shim::next", "<std::iter::Map<I, F> as std::iter::Iterator>::next", "<std::iter::FlatMap<I, U, F> as std::iter::Iterator>::next"):
+for _n in ("__shim::next", "<std::iter::Map<I, F> as std::iter::Iterator>::next", "<std::iter::FlatMap<I, U, F> as std::iter::Iterator>::next",
+           "<std::iter::Zip<A, B> as std::iter::Iterator>::next"):
     MODELS[_n] = _next_dispatch
 
 
@@ -1476,6 +1569,43 @@ def _mk_collect_vec_shim():
     return _body("__shim::collect_vec", 1, 8, blocks)
 
 
+def _mk_collect_arr_shim():
+    # like collect_vec, into a fixed array: used for [T; N]::map(f) = collect(into_iter().map(f))
+    b = _mk_collect_vec_shim()
+    import copy as _copy_
+    b = _copy_.deepcopy(b)
+    b["path"] = "__shim::collect_arr"
+    b["blocks"][0]["term"]["callee"] = _callee("__shim::arr_new")
+    b["blocks"][3]["term"]["callee"] = _callee("__shim::arr_push")
+    return b
+
+
+@model("std::array::<impl [T; N]>::map")
+def m_array_map(m, st, ctx, args, span):
+    arr, f = args
+    if isinstance(arr, Arr):
+        return Enter("__shim::collect_arr", [_adapter("Map", [m_into_iter(m, st, ctx, [arr], span), f], ["iter", "f"])])
+    raise Unsupported("array::map of %r" % (arr,))
+
+
+def _mk_zip_next_shim():
+    # fn next(self: &mut Zip) -> Option<(A, B)> { let x = next(&mut self.a)?; let y = next(&mut self.b)?; Some((x, y)) }
+    # locals: 0 ret, 1 self, 2 &mut a, 3 na, 4 discr, 5 &mut b, 6 nb, 7 discr, 8 x, 9 y, 10 pair
+    blocks = [
+        _blk([_asg(_pl(2), {"k": "ref", "mut": True, "place": _pl(1, _DEREF, _fld(0, "a"))})], _call("__shim::next", [_move(2)], 3, 1)),
+        _blk([_asg(_pl(4), {"k": "discr", "place": _pl(3)})], {"k": "switch", "discr": _move(4), "discr_ty": _ANY, "arms": [["0", 5]], "otherwise": 2}),
+        _blk([_asg(_pl(5), {"k": "ref", "mut": True, "place": _pl(1, _DEREF, _fld(1, "b"))})], _call("__shim::next", [_move(5)], 6, 3)),
+        _blk([_asg(_pl(7), {"k": "discr", "place": _pl(6)})], {"k": "switch", "discr": _move(7), "discr_ty": _ANY, "arms": [["0", 5]], "otherwise": 4}),
+        _blk([_asg(_pl(8), {"k": "use", "op": _some_field(3)}), _asg(_pl(9), {"k": "use", "op": _some_field(6)}),
+              _asg(_pl(10), {"k": "aggregate", "kind": {"k": "tuple"}, "ops": [_move(8), _move(9)]}),
+              _asg(_pl(0), _opt(1, [_move(10)]))], {"k": "return"}),
+        _blk([_asg(_pl(0), _opt(0, []))], {"k": "return"}),
+    ]
+    return _body("__shim::zip_next", 1, 11, blocks)
+
+
+SHIMS["__shim::zip_next"] = _mk_zip_next_shim()
+SHIMS["__shim::collect_arr"] = _mk_collect_arr_shim()
 SHIMS["__shim::map_next"] = _mk_map_next_shim()
 SHIMS["__shim::flatmap_next"] = _mk_flatmap_next_shim()
 SHIMS["__shim::collect_vec"] = _mk_collect_vec_shim()
